@@ -380,6 +380,9 @@ type c10HeaderCase struct {
 	Proto Proto  `json:"proto"`
 	Kind  Kind   `json:"kind"`
 	Value string `json:"value"`
+	// EmptyValue: the timeout header is present and has no value (an empty
+	// number, which the property lists as malformed - not an absent header)
+	EmptyValue bool `json:"empty_value,omitempty"`
 }
 
 func c10HeaderCheck(c *ev.Collector, k c10HeaderCase) {
@@ -422,6 +425,10 @@ func c10HeaderCheck(c *ev.Collector, k c10HeaderCase) {
 		return
 	}
 	want, unbounded, ok, judged := parse(k.Value)
+	if k.EmptyValue {
+		want, unbounded, ok, judged = 0, false, false, true
+		tags = append(tags, "empty-value")
+	}
 	if !judged {
 		c.Outcome("not-judged")
 		return
@@ -640,7 +647,7 @@ func TestC10(t *testing.T) {
 	c.Assume("testing/synctest fake clock (no time passes during a call)", "header values cannot carry leading/trailing whitespace (HTTP strips it)")
 	if ev.ReplayFile() != "" {
 		var hk c10HeaderCase
-		if v, err := ev.LoadReplay(&hk); err == nil && hk.Value != "" {
+		if v, err := ev.LoadReplay(&hk); err == nil && (hk.Value != "" || hk.EmptyValue) {
 			_ = v
 			Bubble(t, func() { c10HeaderCheck(c, hk) })
 			return
@@ -718,7 +725,7 @@ func TestC10(t *testing.T) {
 		}
 	}
 	c10LateSend(t, c)
-	strs := c10HeaderStrings(thorough)
+	strs := append(c10HeaderStrings(thorough), "") // "" = header present without a value
 	for _, p := range AllProtos {
 		for _, kind := range []Kind{KUnary, KServer} {
 			for _, s := range strs {
@@ -729,7 +736,7 @@ func TestC10(t *testing.T) {
 				if c.Expired() {
 					return
 				}
-				k := c10HeaderCase{Proto: p, Kind: kind, Value: s}
+				k := c10HeaderCase{Proto: p, Kind: kind, Value: s, EmptyValue: s == ""}
 				c.Case(fmt.Sprintf("header/%s/%s/%q", p, kind, s), true)
 				Bubble(t, func() { c10HeaderCheck(c, k) })
 				if idx%4999 == 0 {
